@@ -374,6 +374,10 @@ func TestBridge(t *testing.T) {
 	r.prefix = "BR"
 	defer r.Close()
 	opsPerCase := int(envInt("VERIF_OPS", 40))
+	if prop == "C13" {
+		// what the chain PUBLISHES for signing, across compass upgrades (harness/c13_published_test.go; own random stream)
+		c13pScenario(t, r, 1+r.N/3, 30)
+	}
 	for c := 0; c < r.N; c++ {
 		runBridgeCase(t, r, prop, opsPerCase)
 	}
